@@ -126,6 +126,16 @@ func runC09(p *eng.Prog, r *eng.Report, tier string) {
 	r.Note("bare assertions in scope: %d, explicit panics in scope: %d", nAssert, nPanic)
 	chanRules(c, "C09.4", fns, why)
 	c06JoinCtx(c)
+	// C09.9 no lock leaks: every mutex acquired in a function of the library is
+	// released (directly or by defer) on every path to every exit, and the two
+	// closer types release the session lock they were created with on every
+	// first-Close path: a leaked lock wedges the serve loop at its next use.
+	lockPairing(c, "C09.9", nil, map[string]bool{"xmpp.(*Session).TokenWriter": true, "xmpp.(*Session).TokenReader": true})
+	closerTypestate(c, "C09.9")
+	// C09.10 decoder typestate everywhere peer XML is decoded by hand
+	decoderSkipTypestate(c, "C09.10", func(f *eng.Fn) bool { return true }, 15)
+	nd := tokenDecoderUnmarshaler(c, "C09.11", func(f *eng.Fn) bool { return true })
+	r.Note("C09.11: %d DecodeElement calls with an Unmarshaler target on a NewTokenDecoder decoder examined", nd)
 }
 
 // c09IterCurrent: rule C09.7.
